@@ -83,6 +83,31 @@ pub struct CheckCfg {
 pub fn run_campaigns(cfg: &CheckCfg, scratch: &Path) -> Result<Agg, String> {
     let plan = gen::plan(&cfg.prop, cfg.tier, cfg.seed).ok_or_else(|| format!("unknown property {}", cfg.prop))?;
     let total_weight: u32 = plan.iter().map(|c| if let Budget::Time(w) = c.budget { w } else { 0 }).sum();
+    // determinism spot check before any verdict is believed: a few scenarios of every campaign,
+    // twice each, under two different scratch paths
+    {
+        let mut ca = runner::RunCtx::new(scratch.join("det-a"));
+        let mut cb = runner::RunCtx::new(scratch.join("x").join("det-b-other-path"));
+        for c in &plan {
+            let n = match c.budget {
+                Budget::Count(n) => n,
+                Budget::Time(_) => u64::MAX,
+            };
+            for k in 0..6u64 {
+                let idx = (k * 37 + 5) % n.max(1);
+                let sc = (c.gen)(idx);
+                let a = runner::run_one(&mut ca, &sc);
+                let b = runner::run_one(&mut cb, &sc);
+                let va: Vec<&String> = a.verdicts.iter().map(|v| &v.class).collect();
+                let vb: Vec<&String> = b.verdicts.iter().map(|v| &v.class).collect();
+                if a.sig != b.sig || va != vb || a.end != b.end {
+                    return Err(format!("nondeterminism: {}#{} gave event-log hashes {:016x} / {:016x}, ends {} / {}, verdicts {:?} / {:?}", c.name, idx, a.sig, b.sig, a.end, b.end, va, vb));
+                }
+            }
+        }
+        tree::remove_all(&scratch.join("det-a"));
+        tree::remove_all(&scratch.join("x"));
+    }
     let mut pids = vec![];
     std::fs::create_dir_all(scratch).map_err(|e| e.to_string())?;
     for w in 0..cfg.workers {
